@@ -61,6 +61,9 @@ def gen_instance(rng, profile=None):
     # routes
     nroutes = rng.choice([1, 2, 2, 3, 4])
     routes = []
+    # route-segment ids are references inside their route: in a third of the instances every route numbers its own
+    # segments (seg_0, seg_1, ...), so the same id occurs in several routes
+    local_seg_ids = rng.random() < 0.33
     for r in range(nroutes):
         t = rng.randrange(ntypes)
         nseg = rng.choice([1, 1, 2, 3])
@@ -69,7 +72,7 @@ def gen_instance(rng, profile=None):
         for k in range(nseg):
             nxt = rng.choice([l for l in range(nlocs) if l != cur] or [cur])
             seg = {
-                "id": "r%d_s%d" % (r, k),
+                "id": ("seg_%d" % k) if local_seg_ids else ("r%d_s%d" % (r, k)),
                 "order": k,
                 "origin": "L%d" % cur,
                 "destination": "L%d" % nxt,
